@@ -10,7 +10,7 @@ trap 'git -C $R checkout -- . ; rm -rf replays.mut' EXIT
 for p in "$@"; do
   tier=quick; case $p in *:thorough) tier=thorough; p=${p%%:*};; esac
   s=$(date +%s)
-  out=$(./check $p $tier --replays replays.mut --evidence build/mut.$p.json 2>&1); rc=$?
+  out=$(timeout 1500 ./check $p $tier --replays replays.mut --evidence build/mut.$p.json 2>&1); rc=$?
   e=$(date +%s)
   echo "$p $tier exit=$rc $((e-s))s $(echo "$out" | grep -E 'VIOLATION|KNOWN' | head -3 | tr '\n' ' ')"
   if [ $rc = 1 ]; then echo "$out" | grep -E '^  oracle' | head -3; fi
